@@ -5,10 +5,26 @@ at a symbolic branch the context follows its decision prefix, and beyond the pre
 solver which sides are feasible, queues the alternative and continues.  Mutable state therefore
 never has to be copied between paths.
 """
+import os
 import time
 import z3
 
+TRACE = bool(os.environ.get('A5VERIF_TRACE'))
+
 from .values import tobool_const, zand, znot, zbool, Unsupported
+
+
+_HQ = {}
+
+
+def has_quant(e):
+    k = e.get_id()
+    if k not in _HQ:
+        if z3.is_quantifier(e):
+            _HQ[k] = True
+        else:
+            _HQ[k] = any(has_quant(c) for c in e.children())
+    return _HQ[k]
 
 
 class PyRaise(Exception):
@@ -101,11 +117,15 @@ class Explorer:
         s = z3.Solver()
         s.set("timeout", self.settings.branch_timeout_ms)
         for p in pc_list:
-            s.add(p)
+            # quantified hypotheses are dropped: feasibility is over-approximated, which is sound for proving
+            if not has_quant(p):
+                s.add(p)
         s.add(cond)
         r = s.check()
         self.branch_checks += 1
         self.branch_time += time.time() - t0
+        if TRACE:
+            print("[feasible %.2fs %s] %s" % (time.time() - t0, r, str(cond)[:100].replace("\n", " ")), flush=True)
         if r == z3.unknown:
             self.unknown_branches += 1
             return True    # keep the path: sound for proving (over-approximates feasible paths)
@@ -125,6 +145,8 @@ class Ctx:
         self.memo = {}          # per-path conversion memo for live module objects
         self.ghost = {}
         self.fresh_n = {}
+        self.qreads = None      # array reads / uninterpreted applications seen while building a quantifier body
+        self.sides = None       # definedness side conditions collected while evaluating a logical formula
 
     # -- naming -------------------------------------------------------------------------
     def fresh_name(self, base):
@@ -149,11 +171,42 @@ class Ctx:
             c = tobool_const(goal)
             if c is True:
                 return
+            if self.sides is not None:
+                self.sides.append(zbool(goal))     # becomes a conjunct of the enclosing quantified formula
+                return
             raise NoFork()
         goal = zbool(goal)
+        if len(self.decisions) < len(self.prefix):
+            # replaying the prefix shared with the path this one was forked from: that path already
+            # recorded this obligation (same state, same formula)
+            if assume_after:
+                self.assume(goal)
+            return
         self.ex.obligations.append(Obligation(name, self.pc_expr(), goal, where, kind, self.path_id, extra))
         if assume_after:
             self.assume(goal)
+
+    def cover(self, name):
+        """Vacuity guard: this point must be reachable, i.e. `False` must NOT be provable here."""
+        if len(self.decisions) < len(self.prefix):
+            return
+        self.ex.obligations.append(Obligation("cover:" + name, self.pc_expr(), z3.BoolVal(False), None, "cover", self.path_id))
+
+    def guard_error(self, cond, exc, where=None):
+        """`if cond: raise exc` for run-time errors of primitive operations."""
+        if isinstance(cond, bool):
+            c = cond
+        else:
+            c = tobool_const(cond)
+        if c is True:
+            raise PyRaise(exc, where)
+        if c is False:
+            return
+        if self.nofork and self.sides is not None:
+            self.sides.append(z3.Not(cond))
+            return
+        if self.branch(cond, where):
+            raise PyRaise(exc, where)
 
     # -- branching ----------------------------------------------------------------------
     def branch(self, cond, where=None):
